@@ -48,6 +48,8 @@ def shapes():
     out['map_or_default'] = (True, [fn('loop', P2, 'int', [], call('if', zero, acc, call('map_or', typed_none(), E('lam', [('q', 'int', None)], [], V('q')), step)))], 'int2')
     out['local_let_then_tail'] = (True, [fn('loop', P2, 'int', [D('let', 'k', call('add', acc, n, style='op'))], call('if', zero, acc, call('loop', dec, V('k'))))], 'int2')
     out['default_param'] = (True, [fn('loop', [('n', 'int', None), ('acc', 'int', I(0))], 'int', [], call('if', zero, acc, step))], 'int1d')
+    # a tail self-call that leaves a trailing parameter to its default is a tail iteration like any other
+    out['default_omitted_in_tail'] = (True, [fn('loop', [('n', 'int', None), ('acc', 'int', None), ('cap', 'int', I(1000))], 'int', [], call('if', zero, acc, step))], 'int2')
     # ---- non-tail shapes
     out['under_operator'] = (False, [fn('loop', P1, 'int', [], call('if', zero, I(0), call('add', I(1), call('loop', dec), style='op')))], 'int1')
     out['argument_position'] = (False, [fn('idf', [('x', 'int', None)], 'int', [], V('x')),
